@@ -9,9 +9,9 @@
    driver does not fault, and the VT screen after its bytes relates to [paint]'s writes cell by cell. *)
 From Coq Require Import ZArith List Bool Lia ZifyBool.
 From Tickit Require RectDefs RBDefs RBSpec RBWidth RBAbsLemmas RBFlushDefs RBFlushSpec RBTermSim RBFlushShown
-  RBFlushReach RBProps FlushPaint.
+  RBFlushReach RBProps FlushPaint RBPenBridge.
 From Tickit Require Import Csi VT TermPenDefs TermPenSpec TermPenProofs XtermDefs XtermSpec XtermProofs
-  TermApiDefs TermApiSpec TermApiProofs Gen_SgrOnOff.
+  TermApiDefs TermApiSpec TermApiProofs Gen_SgrOnOff TermPenC19 VTUtf8.
 Import ListNotations.
 Local Open Scope Z_scope.
 
@@ -21,73 +21,56 @@ Module FS := Tickit.RBFlushSpec.
 Module TS := Tickit.RBTermSim.
 Module SH := Tickit.RBFlushShown.
 
-(* ---- from the render buffer's pens (C19's attribute maps) to term.c's.  Covered here: the four attributes
-   fg / bg (palette index, no RGB secondary), bold, underline style; [rbpen_okb] demands the other six absent *)
-Definition cv (v : Tickit.PenSpec.value) : aval :=
-  match v with
-  | Tickit.PenSpec.VBool b => VBool b
-  | Tickit.PenSpec.VInt z => VInt z
-  | Tickit.PenSpec.VCol i c =>
-      VCol i (option_map (fun c => mkRgb (Tickit.PenDefs.cr c) (Tickit.PenDefs.cg c) (Tickit.PenDefs.cb c)) c)
-  end.
-Definition pen_of_rb (p : RD.pen) : pen :=
-  fun a => match a with
-           | AFg => option_map cv (RD.p_fg p)
-           | ABg => option_map cv (RD.p_bg p)
-           | ABold => option_map cv (RD.p_bold p)
-           | AUnder => option_map cv (RD.p_under p)
-           | _ => None
-           end.
-Definition col_okb (o : option Tickit.PenSpec.value) : bool :=
-  match o with
-  | None => true
-  | Some (Tickit.PenSpec.VCol i None) => (-1 <=? i) && (i <=? 255)
-  | Some _ => false
-  end.
-Definition bool_okb (o : option Tickit.PenSpec.value) : bool :=
-  match o with None => true | Some (Tickit.PenSpec.VBool _) => true | Some _ => false end.
-Definition und_okb (o : option Tickit.PenSpec.value) : bool :=
-  match o with None => true | Some (Tickit.PenSpec.VInt u) => (0 <=? u) && (u <=? 3) | Some _ => false end.
-Definition absent (o : option Tickit.PenSpec.value) : bool := match o with None => true | Some _ => false end.
-Definition rbpen_okb (p : RD.pen) : bool :=
-  col_okb (RD.p_fg p) && col_okb (RD.p_bg p) && bool_okb (RD.p_bold p) && und_okb (RD.p_under p) &&
-  absent (RD.p_italic p) && absent (RD.p_reverse p) && absent (RD.p_strike p) && absent (RD.p_altfont p) &&
-  absent (RD.p_blink p) && absent (RD.p_sizepos p).
+(* ---- from the render buffer's pens (C19's attribute maps: ten attributes, colours with an optional RGB8
+   secondary) to term.c's *)
+(* [cv], [pattr_of]: the two vocabularies, TermPenC19.v *)
+Definition pen_of_rb (p : RD.pen) : pen := fun a => option_map cv (RD.pget p (pattr_of a)).
+(* the three models of a pen agree: for a TickitPen q (C19's concrete model), the render-buffer pen it
+   denotes (RBPenBridge.denote) converts to the partial map term.c's model holds for q (TermPenC19.rep) *)
+Lemma pen_of_rb_denote : forall q, rep q (pen_of_rb (Tickit.RBPenBridge.denote q)).
+Proof. intros q a. unfold rep_at, pen_of_rb. rewrite Tickit.RBPenBridge.pget_denote. reflexivity. Qed.
+
+(* the values the SGR model covers: colour index -1..255 (RGB components 0..255), underline style 0..3,
+   alternate font -1..9, sizepos 0 / 2 / 3 (SIZEPOS_SMALL = 1 has no SGR), booleans *)
+Definition rbpen_okb (p : RD.pen) : bool := pen_in_rangeb (pen_of_rb p).
 
 (* the operations, as calls of the public API *)
 Definition api_of_termop (o : FD.termop) : api :=
   match o with
   | FD.TGoto l c => AGoto l c
   | FD.TSetPen p => ASetpen (pen_of_rb p)
-  | FD.TPrint s => APrintn s (Z.of_nat (length s))
+  | FD.TPrint s => APrintn (UB.enc s) (Z.of_nat (length (UB.enc s)))     (* the UTF-8 bytes of the text *)
   | FD.TErase n mv => AErasech n (if mv then MYes else MMaybe)
   end.
-(* what the VT model and the library agree on: printable ASCII (one byte, one column), pens in range *)
+(* what the VT model (with its UTF-8 front end, VTUtf8.v) and the library agree on: code points of width 1
+   (cpw = C07's width: ASCII, Latin-1, box drawing, ... -- not control, not combining, not wide), pens in range *)
+Definition uprintable (c : Z) : bool := RD.cpw c =? 1.
 Definition termop_okb (o : FD.termop) : bool :=
   match o with
   | FD.TSetPen p => rbpen_okb p
-  | FD.TPrint s => forallb printable s
+  | FD.TPrint s => forallb uprintable s
   | _ => true
   end.
 
 (* ---- the rendition a render-buffer pen stands for on the terminal *)
-Definition rcol (i : Z) : colour := if i <? 0 then CDefault else CIdx i.
-Definition rund (colon : bool) (n : Z) : Z := if colon then n else if (n =? 0) || (n =? 1) || (n =? 2) then n else 1.
-Definition rcolv (v : Tickit.PenSpec.value) : colour :=
-  match v with Tickit.PenSpec.VCol i _ => rcol i | _ => CDefault end.
-Definition rboolv (v : Tickit.PenSpec.value) : bool := match v with Tickit.PenSpec.VBool b => b | _ => false end.
-Definition rintv (v : Tickit.PenSpec.value) : Z := match v with Tickit.PenSpec.VInt z => z | _ => 0 end.
-(* by the defaulted reads, so that equivalent pens (tickit_pen_equiv) have the same rendition *)
-Definition rend (colon : bool) (p : RD.pen) : attrs :=
-  mkAttrs (rcolv (RD.preads p Tickit.PenDefs.FG)) (rcolv (RD.preads p Tickit.PenDefs.BG))
-          (rboolv (RD.preads p Tickit.PenDefs.BOLD)) false
-          (rund colon (rintv (RD.preads p Tickit.PenDefs.UNDER))) false false false 0 false 0.
+Definition xc (x : vval) : colour := match x with XCol c => c | _ => CDefault end.
+Definition xb (x : vval) : bool := match x with XBool b => b | _ => false end.
+Definition xi (x : vval) : Z := match x with XInt n => n | _ => 0 end.
+Definition attrs_of (f : attr -> vval) : attrs :=
+  mkAttrs (xc (f AFg)) (xc (f ABg)) (xb (f ABold)) false (xi (f AUnder)) (xb (f AItalic)) (xb (f AReverse))
+          (xb (f AStrike)) (xi (f AAltfont)) (xb (f ABlink)) (xi (f ASizepos)).
+(* by the defaulted reads, so that equivalent pens (tickit_pen_equiv) have the same rendition; [enc] is
+   C10's encoding of an attribute value (TermPenSpec): colours by index or -- with an RGB secondary and the
+   RGB capability -- direct, underline styles with or without colon sub-parameters, fonts, sizepos *)
+Definition rval (p : RD.pen) (a : attr) : aval := cv (RD.preads p (pattr_of a)).
+Definition rend (colon rgb8 : bool) (p : RD.pen) : attrs := attrs_of (fun a => enc colon rgb8 a (rval p a)).
 
 (* a VT cell against a cell of the abstract terminal: the glyph, and the pen's rendition -- for a blank
    it is enough that the visible background is the pen's (ECH leaves only the background) *)
-Definition wrel (colon : bool) (c : cell) (tc : FD.tcell) : Prop :=
+Definition wrel (colon rgb8 : bool) (c : cell) (tc : FD.tcell) : Prop :=
   exists g, FD.t_text tc = [g] /\ c_glyph c = g /\
-    (c_attrs c = rend colon (FD.t_pen tc) \/ (g = 32 /\ visbg (c_attrs c) = visbg (rend colon (FD.t_pen tc)))).
+    (c_attrs c = rend colon rgb8 (FD.t_pen tc) \/
+     (g = 32 /\ visbg (c_attrs c) = visbg (rend colon rgb8 (FD.t_pen tc)))).
 
 Definition written (w : TS.writes) (pos : FS.tpos) : bool := existsb (fun pc => FS.tpos_eqb (fst pc) pos) w.
 
@@ -124,18 +107,39 @@ Proof.
   rewrite Z2Nat.id in A by lia. replace (32 + (c - 32)) with c in A by lia.
   apply Z.eqb_eq, A, in_seq. lia.
 Qed.
-Lemma printable_narrow : forall u, forallb printable u = true -> TS.narrow u.
+Lemma uprintable_narrow : forall u, forallb uprintable u = true -> TS.narrow u.
 Proof.
-  intros u H c Hc. rewrite forallb_forall in H. specialize (H c Hc). unfold printable in H.
-  apply cpw_ascii. lia.
+  intros u H c Hc. rewrite forallb_forall in H. specialize (H c Hc). unfold uprintable in H. lia.
 Qed.
+(* a width-1 code point is one tickit_utf8_put encodes and C07's decoder accepts; it is no control character *)
+Lemma uprintable_cpok : forall c, uprintable c = true -> cpok c /\ 32 <= c /\ c <> 127.
+Proof.
+  intros c H. unfold uprintable in H.
+  destruct (UB.cpw_ok_spec c ltac:(lia)) as (H1 & H2 & _).
+  split; [exact (conj H1 H2)|]. unfold U8S.bad_cp in H2. lia.
+Qed.
+Lemma uprintable_all : forall u, forallb uprintable u = true ->
+  Forall cpok u /\ forallb (fun b => negb (b =? 127)) u = true.
+Proof.
+  induction u as [|c u IH]; intros H; [split; [constructor|reflexivity]|].
+  cbn [forallb] in H. apply andb_true_iff in H as [Hc Hu]. destruct (IH Hu) as [I1 I2].
+  destruct (uprintable_cpok c Hc) as (C1 & C2 & C3).
+  split; [constructor; assumption|]. cbn [forallb]. rewrite I2. destruct (c =? 127) eqn:E; [lia|reflexivity].
+Qed.
+(* width-1 includes printable ASCII *)
+Lemma printable_uprintable : forall c, printable c = true -> uprintable c = true.
+Proof. intros c H. unfold printable in H. unfold uprintable. rewrite cpw_ascii by lia. reflexivity. Qed.
+
+Lemma text_class : (forall c, printable c = true -> uprintable c = true) /\
+  forallb uprintable [0xA0; 0xE9; 0xFF; 0x2500; 0x2502; 0x250C; 0x253C; 0x256C; 0x2592] = true /\
+  forallb (fun c => negb (uprintable c)) [0x1F; 0x7F; 0x9F; 0x301; 0x4E2D; 0xFF21] = true.
+Proof. split; [exact printable_uprintable|]. split; vm_compute; reflexivity. Qed.
 
 (* ---- the simulation invariant: the driver's terminal object [t] (cached pen = converted logical pen
-   [l], no reverse video), the VT screen [v] (no margins, rendition = the abstract terminal's pen [pn]) *)
+   [l]), the VT screen [v] (no margins, rendition = the abstract terminal's pen [pn]) *)
 Definition SimInv (colon rgb8 : bool) (v : vt) (t : term) (l : pen) (pn : RD.pen) : Prop :=
   vt_ok v /\ cap_colon (x_caps (t_drv t)) = colon /\ cap_rgb8 (x_caps (t_drv t)) = rgb8 /\
-  PenInv 256 colon rgb8 l (t_pen t) v /\ get_bool_attr (t_pen t) AReverse = false /\
-  v_sgr v = rend colon pn.
+  PenInv 256 colon rgb8 l (t_pen t) v /\ v_sgr v = rend colon rgb8 pn.
 
 (* the cursor paint tracks against the VT's: after a print or an erase up to the right edge the VT's
    cursor stays on the last column (pending wrap, or clamped) where the abstract one stands beyond it *)
@@ -146,9 +150,9 @@ Definition cur_rel (v : vt) (cur : option FS.tpos) : Prop :=
   end.
 
 (* the cells: written ones relate to what paint wrote last, the others are untouched *)
-Definition cells_rel (colon : bool) (w : TS.writes) (v v' : vt) : Prop :=
+Definition cells_rel (colon rgb8 : bool) (w : TS.writes) (v v' : vt) : Prop :=
   forall y x, 0 <= y < v_lines v -> 0 <= x < v_cols v ->
-    if written w (y, x) then wrel colon (v_grid v' y x) (TS.look w (y, x) FS.dtc)
+    if written w (y, x) then wrel colon rgb8 (v_grid v' y x) (TS.look w (y, x) FS.dtc)
     else v_grid v' y x = v_grid v y x.
 
 Lemma PenInv_sgr : forall colors colon rgb8 l tp v v', v_sgr v' = v_sgr v ->
@@ -168,50 +172,74 @@ Proof.
     inversion H8; inversion H9; inversion H10; subst. reflexivity.
 Qed.
 
-Lemma rbpen_ok_parts : forall p, rbpen_okb p = true ->
-  col_okb (RD.p_fg p) = true /\ col_okb (RD.p_bg p) = true /\ bool_okb (RD.p_bold p) = true /\
-  und_okb (RD.p_under p) = true.
-Proof. intros p H. unfold rbpen_okb in H. repeat (apply andb_prop in H as [H ?]). auto. Qed.
-
 Lemma rbpen_ok_in_range : forall p, rbpen_okb p = true -> pen_in_range (pen_of_rb p).
 Proof.
-  intros p H a x E. destruct (rbpen_ok_parts p H) as (H1 & H2 & H3 & H4). unfold pen_of_rb in E.
-  destruct a; try discriminate E; unfold aval_in_range; cbn [attr_type].
-  - destruct (RD.p_fg p) as [[b|z|i [c|]]|]; try discriminate; inversion E; subst. cbn in H1. cbn. lia.
-  - destruct (RD.p_bg p) as [[b|z|i [c|]]|]; try discriminate; inversion E; subst. cbn in H2. cbn. lia.
-  - destruct (RD.p_bold p) as [[b|z|i c]|]; try discriminate; inversion E; subst. exact I.
-  - destruct (RD.p_under p) as [[b|z|i c]|]; try discriminate; inversion E; subst. cbn in H4. lia.
+  intros p H a v Ha. unfold rbpen_okb, pen_in_rangeb in H. rewrite forallb_forall in H.
+  assert (Hin : In a all_attrs) by (destruct a; cbn; tauto).
+  specialize (H a Hin). rewrite Ha in H.
+  unfold aval_in_rangeb in H. unfold aval_in_range.
+  destruct a; cbn [attr_type] in *; destruct v as [b|n|i [c|]]; try discriminate H; try exact I; lia.
+Qed.
+
+Lemma conv_in_range : forall a v, aval_in_range a v -> conv_val 256 v = v.
+Proof.
+  intros a v H. destruct v as [b|n|i sec]; try reflexivity. cbn [conv_val].
+  unfold aval_in_range in H. destruct (attr_type a); try contradiction.
+  destruct (256 <=? i) eqn:E; [lia|reflexivity].
+Qed.
+
+Lemma enc_attr : forall colon rgb8 g a, aval_in_range a (g a) ->
+  vt_attr (attrs_of (fun a => enc colon rgb8 a (g a))) a = enc colon rgb8 a (g a).
+Proof.
+  intros colon rgb8 g a H. unfold aval_in_range in H.
+  destruct a; cbn [attr_type] in H;
+    cbn [vt_attr attrs_of a_fg a_bg a_bold a_under a_italic a_reverse a_strike a_font a_blink a_sizepos];
+    match goal with |- context [g ?A] => destruct (g A) as [b|n|i [c|]] end; try contradiction;
+    cbn [enc vt_attr default_attrs a_fg a_bg
+      a_bold a_under a_italic a_reverse a_strike a_font a_blink a_sizepos xc xb xi];
+    repeat match goal with |- context [if ?c then _ else _] => destruct c end; reflexivity.
+Qed.
+
+Lemma default_in_range : forall a, aval_in_range a (default_val a).
+Proof. intros a. destruct a; cbn; unfold COLOUR_DEFAULT; try exact I; try lia; (split; [lia|exact I]). Qed.
+
+Lemma rval_in_range : forall p a, rbpen_okb p = true -> aval_in_range a (rval p a).
+Proof.
+  intros p a Hok. pose proof (rbpen_ok_in_range p Hok a) as Hr. unfold pen_of_rb in Hr.
+  unfold rval, RD.preads. destruct (RD.pget p (pattr_of a)) as [x|]; cbn [option_map] in Hr.
+  - apply Hr. reflexivity.
+  - rewrite <- default_cv. apply default_in_range.
 Qed.
 
 (* after set-pen of a render-buffer pen the rendition is the pen's *)
 Lemma setpen_rend : forall colon rgb8 l tp' s (p : RD.pen), rbpen_okb p = true ->
   sgr_matches colon rgb8 tp' s ->
   (forall a, tp' a = cache_of 256 (logical_set l (pen_of_rb p)) a) ->
-  s = rend colon p.
+  s = rend colon rgb8 p.
 Proof.
   intros colon rgb8 l tp' s p Hok [Hm Hf] Htp.
-  destruct (rbpen_ok_parts p Hok) as (H1 & H2 & H3 & H4).
   apply attrs_ext; [|rewrite Hf; reflexivity].
-  intros a. rewrite Hm, Htp. unfold cache_of, logical_set, pen_of_rb, rend, default_val, RD.preads.
-  destruct a; cbn [attr_type option_map conv_val vt_attr enc a_fg a_bg a_bold a_under a_italic a_reverse a_strike
-                   a_font a_blink a_sizepos COLOUR_DEFAULT RD.pget].
-  - destruct (RD.p_fg p) as [[b|z|i [c|]]|]; try discriminate; cbn in H1; cbn [option_map cv conv_val enc rcolv].
-    + destruct (256 <=? i) eqn:E; [lia|]. cbn [enc]. unfold rcol. destruct (i <? 0); reflexivity.
-    + reflexivity.
-  - destruct (RD.p_bg p) as [[b|z|i [c|]]|]; try discriminate; cbn in H2; cbn [option_map cv conv_val enc rcolv].
-    + destruct (256 <=? i) eqn:E; [lia|]. cbn [enc]. unfold rcol. destruct (i <? 0); reflexivity.
-    + reflexivity.
-  - destruct (RD.p_bold p) as [[b|z|i c]|]; try discriminate; reflexivity.
-  - destruct (RD.p_under p) as [[b|z|i c]|]; try discriminate; cbn; unfold rund; [reflexivity|destruct colon; reflexivity].
-  - reflexivity.
-  - reflexivity.
-  - reflexivity.
-  - reflexivity.
-  - reflexivity.
-  - reflexivity.
+  intros a. rewrite Hm, Htp. unfold rend. rewrite enc_attr by (apply rval_in_range; exact Hok).
+  unfold cache_of, logical_set. cbn [option_map]. f_equal.
+  pose proof (rval_in_range p a Hok) as Hr. unfold rval, RD.preads, pen_of_rb in *.
+  destruct (RD.pget p (pattr_of a)) as [x|]; cbn [option_map] in *.
+  - apply (conv_in_range a). exact Hr.
+  - rewrite default_cv. apply (conv_in_range a). exact Hr.
 Qed.
-Lemma rend_canon : forall colon p, rend colon (FD.canon_pen p) = rend colon p.
-Proof. intros colon p. reflexivity. Qed.
+Lemma rend_canon : forall colon rgb8 p, rend colon rgb8 (FD.canon_pen p) = rend colon rgb8 p.
+Proof. intros colon rgb8 p. reflexivity. Qed.
+
+(* the driver's reverse-video flag is the screen's *)
+Lemma PenInv_rv : forall colon rgb8 l tp v, PenInv 256 colon rgb8 l tp v ->
+  get_bool_attr tp AReverse = a_reverse (v_sgr v).
+Proof.
+  intros colon rgb8 l tp v (H1 & H2 & (H3 & _)). specialize (H3 AReverse). cbn [vt_attr] in H3.
+  unfold get_bool_attr. rewrite H2 in *. unfold cache_of in *.
+  destruct (l AReverse) as [x|] eqn:E; cbn [option_map] in *.
+  - specialize (H1 AReverse x E). unfold aval_in_range in H1. cbn [attr_type] in H1.
+    destruct x as [b|k|i sec]; try contradiction. cbn [conv_val enc] in *. congruence.
+  - cbn in H3. congruence.
+Qed.
 
 (* ---- the four operations *)
 Lemma vt_ok_parts : forall v, vt_ok v -> mg_full v /\ md_awm (v_md v) = true /\ 0 < v_lines v /\ 0 < v_cols v /\
@@ -221,14 +249,50 @@ Proof.
   destruct (vt_ok_inv v H) as (HL & HC & _ & _ & _ & _ & Hawm & Hr & Hc). repeat split; assumption || lia.
 Qed.
 
+(* the tokens of goto, set-pen and ECH/CUF contain no graphic bytes: the UTF-8 front end passes them *)
+Lemma goto_nochar : forall l c, nocharb (xt_goto_abs l c) = true.
+Proof.
+  intros l c. unfold xt_goto_abs.
+  repeat match goal with |- context [if ?c then _ else _] => destruct c end; reflexivity.
+Qed.
+Lemma move_rel_nochar : forall d r, nocharb (xt_move_rel d r) = true.
+Proof.
+  intros d r. unfold xt_move_rel.
+  repeat match goal with |- context [if ?c then _ else _] => destruct c end; reflexivity.
+Qed.
+Lemma xterm_chpen_nochar : forall cap colon rgb8 d f ts, xterm_chpen cap colon rgb8 d f = Some ts -> nocharb ts = true.
+Proof.
+  intros cap colon rgb8 d f ts H. unfold xterm_chpen in H.
+  destruct (cap <? _); [discriminate H|]. destruct (chpen_params colon rgb8 d); [inversion H; reflexivity|].
+  destruct (negb (is_nondefault f)); inversion H; reflexivity.
+Qed.
+Local Strategy opaque [term_setpen xterm_chpen chpen_params].
+Lemma setpen_nochar : forall t p t' ts r, api_step t (ASetpen p) = Some (t', ts, r) -> nocharb ts = true.
+Proof.
+  intros t p t' ts r H. cbn [api_step] in H. unfold do_setpen in H.
+  destruct (term_setpen _ _ _) as [[tp' d]|]; [|discriminate H].
+  destruct (xterm_chpen _ _ _ _ _) as [ts0|] eqn:X; [|discriminate H].
+  inversion H; subst. apply (xterm_chpen_nochar _ _ _ _ _ _ X).
+Qed.
+Lemma cpok_space : cpok 32.
+Proof. split; [unfold UB.cp_ok; lia|reflexivity]. Qed.
+Lemma utf8_spaces : forall k rest, utf8_toks (chars (repeat 32 k) ++ rest) = chars (repeat 32 k) ++ utf8_toks rest.
+Proof.
+  intros k rest.
+  assert (E : UB.enc (repeat 32 k) = repeat 32 k).
+  { apply enc_ascii. apply Forall_forall. intros c Hc. apply repeat_spec in Hc. lia. }
+  rewrite <- E at 1. apply utf8_print. apply Forall_forall. intros c Hc. apply repeat_spec in Hc. subst c. exact cpok_space.
+Qed.
+
 Lemma sim_goto : forall colon rgb8 v t l pn lg cg, SimInv colon rgb8 v t l pn ->
   0 <= lg < v_lines v -> 0 <= cg < v_cols v ->
   exists toks, api_step t (AGoto lg cg) = Some (t, toks, Some 1) /\
     SimInv colon rgb8 (vt_run toks v) t l pn /\ cur_rel (vt_run toks v) (Some (lg, cg)) /\
     v_lines (vt_run toks v) = v_lines v /\ v_cols (vt_run toks v) = v_cols v /\
-    forall y x, v_grid (vt_run toks v) y x = v_grid v y x.
+    (forall y x, v_grid (vt_run toks v) y x = v_grid v y x) /\
+    (forall rest, utf8_toks (toks ++ rest) = toks ++ utf8_toks rest).
 Proof.
-  intros colon rgb8 v t l pn lg cg (Hok & Hc1 & Hc2 & Hpi & Hrv & Hsgr) Hl Hc.
+  intros colon rgb8 v t l pn lg cg (Hok & Hc1 & Hc2 & Hpi & Hsgr) Hl Hc.
   exists (xt_goto_abs lg cg). split; [reflexivity|].
   rewrite goto_abs_pos by assumption.
   destruct (vt_ok_parts v Hok) as (Hm & Hawm & HL & HC & Hr0 & Hc0).
@@ -236,34 +300,36 @@ Proof.
   - unfold SimInv. split.
     + apply vt_ok_intro; vt_unfold; try assumption; lia.
     + split; [exact Hc1|]. split; [exact Hc2|]. split; [apply (PenInv_sgr _ _ _ _ _ v); [reflexivity|exact Hpi]|].
-      split; [exact Hrv|exact Hsgr].
+      exact Hsgr.
   - split; [cbn [cur_rel]; vt_unfold; split; [reflexivity|left; repeat split; lia]|].
-    split; [reflexivity|]. split; [reflexivity|]. intros y x. reflexivity.
+    split; [reflexivity|]. split; [reflexivity|]. split; [intros y x; reflexivity|].
+    intros rest. apply utf8_nochar, goto_nochar.
 Qed.
 
 Lemma sim_setpen : forall colon rgb8 v t l pn (p : RD.pen), SimInv colon rgb8 v t l pn -> rbpen_okb p = true ->
   exists t' toks l', api_step t (ASetpen (pen_of_rb p)) = Some (t', toks, None) /\
     SimInv colon rgb8 (vt_run toks v) t' l' (FD.canon_pen p) /\
     v_cur (vt_run toks v) = v_cur v /\ v_lines (vt_run toks v) = v_lines v /\ v_cols (vt_run toks v) = v_cols v /\
-    forall y x, v_grid (vt_run toks v) y x = v_grid v y x.
+    (forall y x, v_grid (vt_run toks v) y x = v_grid v y x) /\
+    (forall rest, utf8_toks (toks ++ rest) = toks ++ utf8_toks rest).
 Proof.
-  intros colon rgb8 v t l pn p (Hok & Hc1 & Hc2 & Hpi & Hrv & Hsgr) Hp.
+  intros colon rgb8 v t l pn p (Hok & Hc1 & Hc2 & Hpi & Hsgr) Hp.
   pose proof (rbpen_ok_in_range p Hp) as Hpr.
   rewrite <- Hc1, <- Hc2 in Hpi.
   destruct (api_pen_ok_step true l t v (pen_of_rb p) Hpi Hpr) as (t' & ts & Hstep & Hdrv & Hinv' & Hset & _).
   cbn iota in Hstep, Hinv'. exists t', ts, (logical_set l (pen_of_rb p)).
   split; [exact Hstep|].
   destruct Hinv' as (L1 & L2 & L3).
-  assert (Hs' : v_sgr (vt_run ts v) = rend colon (FD.canon_pen p)).
-  { rewrite rend_canon. rewrite Hc1 in L3. apply (setpen_rend colon _ l (t_pen t') _ p Hp L3 L2). }
+  assert (Hs' : v_sgr (vt_run ts v) = rend colon rgb8 (FD.canon_pen p)).
+  { rewrite rend_canon. rewrite Hc1, Hc2 in L3. apply (setpen_rend colon rgb8 l (t_pen t') _ p Hp L3 L2). }
   destruct (vt_ok_parts v Hok) as (Hm & Hawm & HL & HC & Hr0 & Hc0).
   split.
   - unfold SimInv. rewrite Hdrv. split.
     + rewrite Hset. apply vt_ok_intro; vt_unfold; assumption.
     + split; [exact Hc1|]. split; [exact Hc2|]. split; [rewrite <- Hc1, <- Hc2; exact (conj L1 (conj L2 L3))|].
-      split; [|exact Hs'].
-      unfold get_bool_attr. rewrite L2. unfold cache_of, logical_set, pen_of_rb, default_val. reflexivity.
-  - rewrite Hset. split; [reflexivity|]. split; [reflexivity|]. split; [reflexivity|]. intros y x. reflexivity.
+      exact Hs'.
+  - rewrite Hset. split; [reflexivity|]. split; [reflexivity|]. split; [reflexivity|].
+    split; [intros y x; reflexivity|]. intros rest. apply utf8_nochar, (setpen_nochar _ _ _ _ _ Hstep).
 Qed.
 
 Lemma cur_after_print : forall cols c n cv (pv : bool), 0 <= c -> 0 < n -> c + n <= cols ->
@@ -275,49 +341,77 @@ Proof.
   - split; [lia|]. right. split; lia.
 Qed.
 
+(* a non-empty run of printable characters that fits on the line, on the VT *)
+Lemma print_vt : forall colon rgb8 v t l pn (u : list Z) lc c, SimInv colon rgb8 v t l pn ->
+  cur_rel v (Some (lc, c)) -> forallb (fun b => negb (b =? 127)) u = true -> 0 <= c -> (0 < length u)%nat ->
+  c + Z.of_nat (length u) <= v_cols v ->
+  SimInv colon rgb8 (vt_run (chars u) v) t l pn /\
+  cur_rel (vt_run (chars u) v) (Some (lc, c + Z.of_nat (length u))) /\
+  v_lines (vt_run (chars u) v) = v_lines v /\ v_cols (vt_run (chars u) v) = v_cols v /\
+  forall y x, v_grid (vt_run (chars u) v) y x =
+              if (y =? lc) && (c <=? x) && (x <? c + Z.of_nat (length u))
+              then mkCell (nth (Z.to_nat (x - c)) u 0) (v_sgr v) else v_grid v y x.
+Proof.
+  intros colon rgb8 v t l pn u lc c Hsim Hcur Hpr Hc0 Hne Hfit.
+  destruct u as [|b u']; [cbn in Hne; lia|].
+  set (u := b :: u') in *.
+  assert (Hlen : 0 < Z.of_nat (length u)) by lia.
+  destruct Hsim as (Hok & Hc1 & Hc2 & Hpi & Hsgr).
+  destruct (vt_ok_parts v Hok) as (Hm & Hawm & HL & HC & Hr0 & Hcc0).
+  assert (Hmk : forall v2, v_sgr v2 = v_sgr v -> vt_ok v2 -> SimInv colon rgb8 v2 t l pn).
+  { intros v2 E5 Hok2. unfold SimInv. split; [exact Hok2|]. split; [exact Hc1|]. split; [exact Hc2|].
+    split; [apply (PenInv_sgr _ _ _ _ _ v); [exact E5|exact Hpi]|]. rewrite E5; exact Hsgr. }
+  clear Hpi Hsgr Hc1 Hc2.
+  cbn [cur_rel] in Hcur. destruct Hcur as (Hrow & [(Hlt & Hcol & Hpend) | (Hge & _)]); [|lia].
+  destruct (chars_run_g u v Hm Hawm Hpr (or_introl Hpend) ltac:(lia) ltac:(lia)) as (Gf & Grow & Gcur & Gg).
+  set (v' := vt_run (chars u) v) in *. clearbody v'.
+  destruct Gf as (F1 & F2 & F3 & F4 & F5).
+  unfold u in Gcur. fold u in Gcur. clearbody u.
+  set (n := Z.of_nat (length u)) in *.
+  assert (Hgg := Gg). assert (Hgg2 := Gg). clear Gg. clearbody n.
+  assert (Hc' := cur_after_print (v_cols v) c n (col v') (pend v') Hc0 Hlen Hfit ltac:(rewrite <- Hcol; exact Gcur)).
+  destruct Hc' as (Hcin & Hcrel).
+  split.
+  + apply Hmk; [exact F4|]. clear Hmk Hgg.
+    apply vt_ok_intro; rewrite ?F1, ?F2, ?F3, ?F5, ?Grow; try assumption; try lia.
+  + clear Hmk Hgg. split; [cbn [cur_rel]; rewrite F2; split; [lia|exact Hcrel]|].
+    split; [exact F1|]. split; [exact F2|].
+    intros y x. rewrite Hgg2, Hrow, Hcol. reflexivity.
+Qed.
+
+Lemma enc_nonempty : forall c u, (0 < length (UB.enc (c :: u)))%nat.
+Proof.
+  intros c u. unfold UB.enc. cbn [flat_map]. rewrite app_length. unfold Tickit.Utf8Defs.put_bytes.
+  destruct (Tickit.Utf8Defs.put_tail _ _ _). cbn [length]. lia.
+Qed.
+
+(* printn of the UTF-8 bytes of [u]: the front end delivers the code points [u], one cell each *)
 Lemma sim_print : forall colon rgb8 v t l pn (u : list Z) lc c, SimInv colon rgb8 v t l pn ->
-  cur_rel v (Some (lc, c)) -> forallb printable u = true -> 0 <= c -> c + Z.of_nat (length u) <= v_cols v ->
-  exists toks, api_step t (APrintn u (Z.of_nat (length u))) = Some (t, toks, None) /\
-    SimInv colon rgb8 (vt_run toks v) t l pn /\ cur_rel (vt_run toks v) (Some (lc, c + Z.of_nat (length u))) /\
-    v_lines (vt_run toks v) = v_lines v /\ v_cols (vt_run toks v) = v_cols v /\
-    forall y x, v_grid (vt_run toks v) y x =
+  cur_rel v (Some (lc, c)) -> forallb uprintable u = true -> 0 <= c -> c + Z.of_nat (length u) <= v_cols v ->
+  exists toks, api_step t (APrintn (UB.enc u) (Z.of_nat (length (UB.enc u)))) = Some (t, toks, None) /\
+    (forall rest, utf8_toks (toks ++ rest) = chars u ++ utf8_toks rest) /\
+    SimInv colon rgb8 (vt_run (chars u) v) t l pn /\ cur_rel (vt_run (chars u) v) (Some (lc, c + Z.of_nat (length u))) /\
+    v_lines (vt_run (chars u) v) = v_lines v /\ v_cols (vt_run (chars u) v) = v_cols v /\
+    forall y x, v_grid (vt_run (chars u) v) y x =
                 if (y =? lc) && (c <=? x) && (x <? c + Z.of_nat (length u))
                 then mkCell (nth (Z.to_nat (x - c)) u 0) (v_sgr v) else v_grid v y x.
 Proof.
   intros colon rgb8 v t l pn u lc c Hsim Hcur Hpr Hc0 Hfit.
-  destruct u as [|b u'].
+  destruct (uprintable_all u Hpr) as [Hcp Hnd].
+  destruct u as [|c0 u'].
   - (* nothing: the repaired printn returns at once *)
-    exists []. split; [reflexivity|]. rewrite vt_run_nil. cbn [length Z.of_nat]. rewrite Z.add_0_r.
+    exists []. split; [reflexivity|]. split; [intros rest; reflexivity|].
+    cbn [chars map]. rewrite vt_run_nil. cbn [length Z.of_nat]. rewrite Z.add_0_r.
     split; [exact Hsim|]. split; [exact Hcur|]. split; [reflexivity|]. split; [reflexivity|].
     intros y x. destruct ((y =? lc) && (c <=? x) && (x <? c)) eqn:E; [lia|reflexivity].
-  - set (u := b :: u') in *.
-    assert (Hlen : 0 < Z.of_nat (length u)) by (unfold u; cbn [length]; lia).
-    destruct Hsim as (Hok & Hc1 & Hc2 & Hpi & Hrv & Hsgr).
-    destruct (vt_ok_parts v Hok) as (Hm & Hawm & HL & HC & Hr0 & Hcc0).
-    assert (Hmk : forall v2, v_sgr v2 = v_sgr v -> vt_ok v2 -> SimInv colon rgb8 v2 t l pn).
-    { intros v2 E5 Hok2. unfold SimInv. split; [exact Hok2|]. split; [exact Hc1|]. split; [exact Hc2|].
-      split; [apply (PenInv_sgr _ _ _ _ _ v); [exact E5|exact Hpi]|]. split; [exact Hrv|rewrite E5; exact Hsgr]. }
-    clear Hpi Hrv Hsgr Hc1 Hc2.
-    cbn [cur_rel] in Hcur. destruct Hcur as (Hrow & [(Hlt & Hcol & Hpend) | (Hge & _)]); [|lia].
-    exists (chars u). split.
-    { cbn [api_step]. destruct (Z.of_nat (length u) =? 0) eqn:E0; [lia|].
+  - set (u := c0 :: u') in *. exists (chars (UB.enc u)). split.
+    { pose proof (enc_nonempty c0 u') as Hne. fold u in Hne.
+      cbn [api_step]. destruct (Z.of_nat (length (UB.enc u)) =? 0) eqn:E0; [lia|].
       unfold drv_print, write_str_bytes. rewrite E0.
-      destruct ((0 <? Z.of_nat (length u)) && (Z.of_nat (length u) <=? Z.of_nat (length u))) eqn:E1; [|lia].
+      destruct ((0 <? Z.of_nat (length (UB.enc u))) && (Z.of_nat (length (UB.enc u)) <=? Z.of_nat (length (UB.enc u)))) eqn:E1; [|lia].
       rewrite Nat2Z.id, firstn_all. reflexivity. }
-    destruct (chars_run u v Hm Hawm Hpr (or_introl Hpend) ltac:(lia) ltac:(lia)) as (Gf & Grow & Gcur & Gg).
-    set (v' := vt_run (chars u) v) in *. clearbody v'.
-    destruct Gf as (F1 & F2 & F3 & F4 & F5).
-    unfold u in Gcur. fold u in Gcur. clearbody u.
-    set (n := Z.of_nat (length u)) in *.
-    assert (Hgg := Gg). assert (Hgg2 := Gg). clear Gg. clearbody n.
-    assert (Hc' := cur_after_print (v_cols v) c n (col v') (pend v') Hc0 Hlen Hfit ltac:(rewrite <- Hcol; exact Gcur)).
-    destruct Hc' as (Hcin & Hcrel).
-    split.
-    + apply Hmk; [exact F4|]. clear Hmk Hgg.
-      apply vt_ok_intro; rewrite ?F1, ?F2, ?F3, ?F5, ?Grow; try assumption; try lia.
-    + clear Hmk Hgg. split; [cbn [cur_rel]; rewrite F2; split; [lia|exact Hcrel]|].
-      split; [exact F1|]. split; [exact F2|].
-      intros y x. rewrite Hgg2, Hrow, Hcol. reflexivity.
+    split; [intros rest; apply utf8_print; exact Hcp|].
+    apply (print_vt colon rgb8 v t l pn u lc c Hsim Hcur Hnd Hc0); [unfold u; cbn [length]; lia|exact Hfit].
 Qed.
 
 Lemma run_ech_n : forall v n, 1 <= n -> vt_run (if n =? 1 then [csi_0 88] else [csi_n n 88]) v = vt_ech v n.
@@ -327,26 +421,60 @@ Proof.
   - rewrite run_ech. destruct (n =? 0) eqn:B; [lia|reflexivity].
 Qed.
 
+Lemma ech_nochar : forall n (mv : bool),
+  nocharb ((if n =? 1 then [csi_0 88] else [csi_n n 88]) ++
+           match (if mv then MYes else MMaybe) with MYes => xt_move_rel 0 n | _ => [] end) = true.
+Proof.
+  intros n mv. unfold nocharb. rewrite forallb_app. destruct mv.
+  - fold (nocharb (xt_move_rel 0 n)). rewrite move_rel_nochar. destruct (n =? 1); reflexivity.
+  - destruct (n =? 1); reflexivity.
+Qed.
+
+Lemma forallb_notdel_spaces : forall k, forallb (fun b => negb (b =? 127)) (repeat 32 k) = true.
+Proof. induction k as [|k IH]; [reflexivity|]. cbn [repeat forallb]. rewrite IH. reflexivity. Qed.
+
+(* erasech: ECH (+ CUF) when the rendition is not in reverse video -- blanks that keep only the background --
+   and otherwise spaces in the full rendition.  The flush asks for moveend = YES or MAYBE only, never NO,
+   so the move back of the spaces strategy -- and with it the recorded right-edge class -- is not used. *)
 Lemma sim_erase : forall colon rgb8 v t l pn n (mv : bool) lc c, SimInv colon rgb8 v t l pn ->
   cur_rel v (Some (lc, c)) -> 0 <= n -> 0 <= c -> c + n <= v_cols v ->
   exists toks, api_step t (AErasech n (if mv then MYes else MMaybe)) = Some (t, toks, None) /\
     SimInv colon rgb8 (vt_run toks v) t l pn /\
     cur_rel (vt_run toks v) (if mv then Some (lc, c + n) else None) /\
     v_lines (vt_run toks v) = v_lines v /\ v_cols (vt_run toks v) = v_cols v /\
-    forall y x, v_grid (vt_run toks v) y x =
-                if (y =? lc) && (c <=? x) && (x <? c + n) then blank v else v_grid v y x.
+    (forall y x, v_grid (vt_run toks v) y x =
+                if (y =? lc) && (c <=? x) && (x <? c + n)
+                then (if a_reverse (v_sgr v) then mkCell 32 (v_sgr v) else blank v) else v_grid v y x) /\
+    (forall rest, utf8_toks (toks ++ rest) = toks ++ utf8_toks rest).
 Proof.
   intros colon rgb8 v t l pn n mv lc c Hsim Hcur Hn Hc0 Hfit.
-  destruct (Hsim) as (Hok & Hc1 & Hc2 & Hpi & Hrv & Hsgr).
+  destruct (Hsim) as (Hok & Hc1 & Hc2 & Hpi & Hsgr).
+  pose proof (PenInv_rv _ _ _ _ _ Hpi) as Hrv.
   destruct (vt_ok_parts v Hok) as (Hm & Hawm & HL & HC & Hr0 & Hcc0).
-  exists (xt_erasech false n (if mv then MYes else MMaybe)).
+  exists (xt_erasech (a_reverse (v_sgr v)) n (if mv then MYes else MMaybe)).
   split; [cbn [api_step]; rewrite Hrv; reflexivity|].
   unfold xt_erasech. destruct (n <? 1) eqn:En.
   - (* count 0: nothing *)
     assert (n = 0) by lia. subst n. rewrite vt_run_nil, Z.add_0_r.
     split; [exact Hsim|]. split; [destruct mv; [exact Hcur|exact I]|]. split; [reflexivity|]. split; [reflexivity|].
+    split; [|intros rest; reflexivity].
     intros y x. destruct ((y =? lc) && (c <=? x) && (x <? c)) eqn:E; [lia|reflexivity].
-  - cbn [negb]. cbn [cur_rel] in Hcur. destruct Hcur as (Hrow & [(Hlt & Hcol & Hpend) | (Hge & _)]); [|lia].
+  - destruct (a_reverse (v_sgr v)) eqn:Erv; cbn [negb].
+    + (* reverse video: spaces *)
+      rewrite spaces_chunks_eq by lia.
+      replace (match (if mv then MYes else MMaybe) with MNo => xt_move_rel 0 (- n) | _ => [] end) with (@nil token)
+        by (destruct mv; reflexivity).
+      rewrite app_nil_r.
+      destruct (print_vt colon rgb8 v t l pn (repeat 32 (Z.to_nat n)) lc c Hsim Hcur
+                  (forallb_notdel_spaces _) Hc0) as (S1 & S2 & S3 & S4 & S5);
+        try (rewrite repeat_length; lia).
+      rewrite repeat_length, Z2Nat.id in * by lia.
+      split; [exact S1|]. split; [destruct mv; [exact S2|exact I]|]. split; [exact S3|]. split; [exact S4|].
+      split; [|intros rest; apply utf8_spaces].
+      intros y x. rewrite S5. destruct ((y =? lc) && (c <=? x) && (x <? c + n)) eqn:Ein; [|reflexivity].
+      rewrite (nth_repeat_lt _ 32) by lia. reflexivity.
+    + cbn [cur_rel] in Hcur. destruct Hcur as (Hrow & [(Hlt & Hcol & Hpend) | (Hge & _)]); [|lia].
+    pose proof (fun rest => utf8_nochar _ rest (ech_nochar n mv)) as Hu.
     rewrite vt_run_app, run_ech_n by lia.
     set (v1 := vt_ech v n).
     assert (Hg1 : forall y x, v_grid v1 y x = if (y =? lc) && (c <=? x) && (x <? c + n) then blank v else v_grid v y x).
@@ -356,10 +484,10 @@ Proof.
     { intros v2 E1 E2 E3 E4 E5 R2 C2. unfold SimInv. split.
       - apply vt_ok_intro; rewrite ?E1, ?E2, ?E3, ?E4; assumption.
       - split; [exact Hc1|]. split; [exact Hc2|]. split; [apply (PenInv_sgr _ _ _ _ _ v); [exact E5|exact Hpi]|].
-        split; [exact Hrv|rewrite E5; exact Hsgr]. }
+        rewrite E5; exact Hsgr. }
     clear Hpi Hsgr Hsim.
     destruct mv.
-    + (* the cursor moves to the end of the erased range: CUF, which stops on the last column *)
+    * (* the cursor moves to the end of the erased range: CUF, which stops on the last column *)
       assert (Hmv : vt_run (xt_move_rel 0 n) v1 = set_cur v1 (mkCursor lc (Z.min (v_cols v - 1) (c + n)) false)).
       { rewrite move_rel_split. unfold move_v. cbn [Z.ltb Z.eqb Z.compare app]. unfold move_h.
         assert (Hcuf : forall k, k = n -> vt_cuf v1 k = set_cur v1 (mkCursor lc (Z.min (v_cols v - 1) (c + n)) false)).
@@ -374,21 +502,30 @@ Proof.
       split.
       { cbn [cur_rel]. unfold v1, vt_ech. vt_unfold. split; [reflexivity|].
         destruct (Z.eq_dec (c + n) (v_cols v)) as [E|E]; [right; lia|left; repeat split; lia]. }
-      split; [reflexivity|]. split; [reflexivity|]. intros y x. exact (Hg1 y x).
-    + rewrite vt_run_nil.
+      split; [reflexivity|]. split; [reflexivity|]. split; [intros y x; exact (Hg1 y x)|]. exact Hu.
+    * rewrite vt_run_nil.
       split; [apply Hsim1; unfold v1, vt_ech; vt_unfold; try reflexivity; assumption|].
-      split; [exact I|]. split; [reflexivity|]. split; [reflexivity|]. exact Hg1.
+      split; [exact I|]. split; [reflexivity|]. split; [reflexivity|]. split; [exact Hg1|]. exact Hu.
+Qed.
+
+(* the recorded finding C09-erasech-rv-right-edge (trigger class [api_excl] / [erase_trigger]: reverse video,
+   moveend = NO, ending at the right edge) is excluded EXPLICITLY: no operation of a flush is in it, whatever the
+   pen, because renderbuffer.c asks for moveend = YES or MAYBE only *)
+Lemma flush_op_not_rv_edge : forall t v o, api_excl t v (api_of_termop o) = false.
+Proof.
+  intros t v o. unfold api_excl. destruct o as [lg cg|p|u|n mv]; cbn [api_of_termop req_of_api rv_edge_excl]; try reflexivity.
+  unfold erase_trigger. destruct mv; rewrite !andb_false_r; reflexivity.
 Qed.
 
 (* ---- composing the cell relations of consecutive operations *)
-Lemma cells_rel_nil : forall colon v v', (forall y x, v_grid v' y x = v_grid v y x) -> cells_rel colon [] v v'.
-Proof. intros colon v v' H y x _ _. cbn. apply H. Qed.
+Lemma cells_rel_nil : forall colon rgb8 v v', (forall y x, v_grid v' y x = v_grid v y x) -> cells_rel colon rgb8 [] v v'.
+Proof. intros colon rgb8 v v' H y x _ _. cbn. apply H. Qed.
 
-Lemma cells_rel_app : forall colon wop w2 v v1 v2,
+Lemma cells_rel_app : forall colon rgb8 wop w2 v v1 v2,
   v_lines v1 = v_lines v -> v_cols v1 = v_cols v ->
-  cells_rel colon wop v v1 -> cells_rel colon w2 v1 v2 -> cells_rel colon (wop ++ w2) v v2.
+  cells_rel colon rgb8 wop v v1 -> cells_rel colon rgb8 w2 v1 v2 -> cells_rel colon rgb8 (wop ++ w2) v v2.
 Proof.
-  intros colon wop w2 v v1 v2 E1 E2 H1 H2 y x Hy Hx.
+  intros colon rgb8 wop w2 v v1 v2 E1 E2 H1 H2 y x Hy Hx.
   specialize (H1 y x Hy Hx). specialize (H2 y x ltac:(rewrite E1; exact Hy) ltac:(rewrite E2; exact Hx)).
   rewrite written_app, TS.look_app.
   destruct (written w2 (y, x)) eqn:W2.
@@ -405,49 +542,58 @@ Proof.
   rewrite (map_nth (fun x => FD.mkT [x] pn) u 0). reflexivity.
 Qed.
 
-(* ---- the simulation: a list of operations on which paint succeeds *)
+(* ---- the simulation: a list of operations on which paint succeeds.  [toks]: what the driver writes;
+   [dtoks]: what the UTF-8 front end makes of it (utf8_toks toks = dtoks: take rest = []) *)
 Theorem paint_on_vt : forall ops colon rgb8 v t l pn cur w cur' pen',
   SimInv colon rgb8 v t l pn -> cur_rel v cur ->
   Forall (fun o => termop_okb o = true) ops ->
   TS.paint (v_lines v) (v_cols v) cur pn ops = Some (w, cur', pen') ->
-  exists t' toks l',
+  exists t' toks dtoks l',
     api_run t (map api_of_termop ops) = Some (t', toks) /\
-    SimInv colon rgb8 (vt_run toks v) t' l' pen' /\ cur_rel (vt_run toks v) cur' /\
-    v_lines (vt_run toks v) = v_lines v /\ v_cols (vt_run toks v) = v_cols v /\
-    cells_rel colon w v (vt_run toks v).
+    (forall rest, utf8_toks (toks ++ rest) = dtoks ++ utf8_toks rest) /\
+    SimInv colon rgb8 (vt_run dtoks v) t' l' pen' /\ cur_rel (vt_run dtoks v) cur' /\
+    v_lines (vt_run dtoks v) = v_lines v /\ v_cols (vt_run dtoks v) = v_cols v /\
+    cells_rel colon rgb8 w v (vt_run dtoks v).
 Proof.
   induction ops as [|o ops IH]; intros colon rgb8 v t l pn cur w cur' pen' Hsim Hcur Hok P; cbn [TS.paint] in P.
-  - inversion P; subst. exists t, [], l. cbn [map api_run]. rewrite vt_run_nil.
-    split; [reflexivity|]. split; [exact Hsim|]. split; [exact Hcur|]. split; [reflexivity|]. split; [reflexivity|].
+  - inversion P; subst. exists t, [], [], l. cbn [map api_run]. rewrite vt_run_nil.
+    split; [reflexivity|]. split; [intros rest; reflexivity|].
+    split; [exact Hsim|]. split; [exact Hcur|]. split; [reflexivity|]. split; [reflexivity|].
     apply cells_rel_nil. reflexivity.
   - inversion Hok as [|o' ops' Ho Hops]; subst.
     destruct o as [lg cg|p|u|n mv]; cbn [map api_of_termop api_run].
     + (* goto *)
       destruct ((0 <=? lg) && (lg <? v_lines v) && (0 <=? cg) && (cg <? v_cols v)) eqn:Ein; [|discriminate P].
-      destruct (sim_goto colon rgb8 v t l pn lg cg Hsim ltac:(lia) ltac:(lia)) as (toks & Hstep & Hsim1 & Hcur1 & E1 & E2 & Hg).
+      destruct (sim_goto colon rgb8 v t l pn lg cg Hsim ltac:(lia) ltac:(lia))
+        as (toks & Hstep & Hsim1 & Hcur1 & E1 & E2 & Hg & Hu).
       rewrite Hstep.
       rewrite <- E1, <- E2 in P.
-      destruct (IH colon rgb8 _ t l pn _ w cur' pen' Hsim1 Hcur1 Hops P) as (t' & toks2 & l' & Hrun & Hsim2 & Hcur2 & F1 & F2 & Hc2).
-      rewrite Hrun. exists t', (toks ++ toks2), l'. rewrite vt_run_app.
-      split; [reflexivity|]. split; [exact Hsim2|]. split; [exact Hcur2|].
+      destruct (IH colon rgb8 _ t l pn _ w cur' pen' Hsim1 Hcur1 Hops P)
+        as (t' & toks2 & dtoks2 & l' & Hrun & Hu2 & Hsim2 & Hcur2 & F1 & F2 & Hc2).
+      rewrite Hrun. exists t', (toks ++ toks2), (toks ++ dtoks2), l'. rewrite vt_run_app.
+      split; [reflexivity|]. split; [intros rest; rewrite <- !app_assoc, Hu, Hu2; reflexivity|].
+      split; [exact Hsim2|]. split; [exact Hcur2|].
       split; [congruence|]. split; [congruence|].
-      apply (cells_rel_app colon [] w v (vt_run toks v) _ E1 E2); [apply cells_rel_nil; exact Hg|exact Hc2].
+      apply (cells_rel_app colon rgb8 [] w v (vt_run toks v) _ E1 E2); [apply cells_rel_nil; exact Hg|exact Hc2].
     + (* setpen *)
       cbn [termop_okb] in Ho.
-      destruct (sim_setpen colon rgb8 v t l pn p Hsim Ho) as (t1 & toks & l1 & Hstep & Hsim1 & Ecur & E1 & E2 & Hg).
+      destruct (sim_setpen colon rgb8 v t l pn p Hsim Ho)
+        as (t1 & toks & l1 & Hstep & Hsim1 & Ecur & E1 & E2 & Hg & Hu).
       rewrite Hstep.
       assert (Hcur1 : cur_rel (vt_run toks v) cur).
       { destruct cur as [[lc c]|]; [|exact I]. cbn [cur_rel] in *. unfold row, col, pend in *. rewrite Ecur, E2. exact Hcur. }
       rewrite <- E1, <- E2 in P.
-      destruct (IH colon rgb8 _ t1 l1 _ _ w cur' pen' Hsim1 Hcur1 Hops P) as (t' & toks2 & l' & Hrun & Hsim2 & Hcur2 & F1 & F2 & Hc2).
-      rewrite Hrun. exists t', (toks ++ toks2), l'. rewrite vt_run_app.
-      split; [reflexivity|]. split; [exact Hsim2|]. split; [exact Hcur2|].
+      destruct (IH colon rgb8 _ t1 l1 _ _ w cur' pen' Hsim1 Hcur1 Hops P)
+        as (t' & toks2 & dtoks2 & l' & Hrun & Hu2 & Hsim2 & Hcur2 & F1 & F2 & Hc2).
+      rewrite Hrun. exists t', (toks ++ toks2), (toks ++ dtoks2), l'. rewrite vt_run_app.
+      split; [reflexivity|]. split; [intros rest; rewrite <- !app_assoc, Hu, Hu2; reflexivity|].
+      split; [exact Hsim2|]. split; [exact Hcur2|].
       split; [congruence|]. split; [congruence|].
-      apply (cells_rel_app colon [] w v (vt_run toks v) _ E1 E2); [apply cells_rel_nil; exact Hg|exact Hc2].
+      apply (cells_rel_app colon rgb8 [] w v (vt_run toks v) _ E1 E2); [apply cells_rel_nil; exact Hg|exact Hc2].
     + (* print *)
       cbn [termop_okb] in Ho.
       destruct cur as [[lc c]|]; [|discriminate P].
-      pose proof (printable_narrow u Ho) as Nu.
+      pose proof (uprintable_narrow u Ho) as Nu.
       destruct (RD.text_valid u && TS.starts_baseb u && (c + RD.text_width u <=? v_cols v)) eqn:Ec; [|discriminate P].
       assert (Hw : RD.text_width u = Z.of_nat (length u)).
       { rewrite Tickit.RBWidth.text_width_tw, (SH.tw_narrow u Nu). reflexivity. }
@@ -458,20 +604,22 @@ Proof.
       { cbn [cur_rel] in Hcur. destruct Hsim as (Hokv & _). destruct (vt_ok_parts v Hokv) as (_ & _ & _ & _ & _ & Hcc).
         destruct Hcur as (_ & [(A & B & _)|(A & B)]); lia. }
       destruct (sim_print colon rgb8 v t l pn u lc c Hsim Hcur Ho Hc0 ltac:(lia))
-        as (toks & Hstep & Hsim1 & Hcur1 & E1 & E2 & Hg).
+        as (toks & Hstep & Hu & Hsim1 & Hcur1 & E1 & E2 & Hg).
       rewrite Hstep.
       rewrite <- E1, <- E2 in P2.
-      destruct (IH colon rgb8 _ t l pn _ w2 e2 q2 Hsim1 Hcur1 Hops P2) as (t' & toks2 & l' & Hrun & Hsim2 & Hcur2 & F1 & F2 & Hc2).
-      rewrite Hrun. exists t', (toks ++ toks2), l'. rewrite vt_run_app.
-      split; [reflexivity|]. split; [exact Hsim2|]. split; [exact Hcur2|].
+      destruct (IH colon rgb8 _ t l pn _ w2 e2 q2 Hsim1 Hcur1 Hops P2)
+        as (t' & toks2 & dtoks2 & l' & Hrun & Hu2 & Hsim2 & Hcur2 & F1 & F2 & Hc2).
+      rewrite Hrun. exists t', (toks ++ toks2), (chars u ++ dtoks2), l'. rewrite vt_run_app.
+      split; [reflexivity|]. split; [intros rest; rewrite <- !app_assoc, Hu, Hu2; reflexivity|].
+      split; [exact Hsim2|]. split; [exact Hcur2|].
       split; [congruence|]. split; [congruence|].
-      apply (cells_rel_app colon _ w2 v (vt_run toks v) _ E1 E2); [|exact Hc2].
+      apply (cells_rel_app colon rgb8 _ w2 v (vt_run (chars u) v) _ E1 E2); [|exact Hc2].
       intros y x Hy Hx. rewrite (SH.lay_narrow u Nu). rewrite written_rw, !map_length, Hg.
       destruct ((y =? lc) && (c <=? x) && (x <? c + Z.of_nat (length u))) eqn:Ein; [|reflexivity].
       rewrite TS.look_rw. unfold Tickit.RBAbsLemmas.zlen. rewrite !map_length, Ein.
       rewrite nth_map_map_narrow by lia.
       exists (nth (Z.to_nat (x - c)) u 0). cbn [FD.t_text FD.t_pen c_glyph c_attrs].
-      split; [reflexivity|]. split; [reflexivity|]. left. destruct Hsim as (_ & _ & _ & _ & _ & Hsgr). exact Hsgr.
+      split; [reflexivity|]. split; [reflexivity|]. left. destruct Hsim as (_ & _ & _ & _ & Hsgr). exact Hsgr.
     + (* erase *)
       destruct cur as [[lc c]|]; [|discriminate P].
       destruct ((0 <=? n) && (c + n <=? v_cols v)) eqn:Ec; [|discriminate P].
@@ -481,21 +629,27 @@ Proof.
       { cbn [cur_rel] in Hcur. destruct Hsim as (Hokv & _). destruct (vt_ok_parts v Hokv) as (_ & _ & _ & _ & _ & Hcc).
         destruct Hcur as (_ & [(A & B & _)|(A & B)]); lia. }
       destruct (sim_erase colon rgb8 v t l pn n mv lc c Hsim Hcur ltac:(lia) Hc0 ltac:(lia))
-        as (toks & Hstep & Hsim1 & Hcur1 & E1 & E2 & Hg).
+        as (toks & Hstep & Hsim1 & Hcur1 & E1 & E2 & Hg & Hu).
       rewrite Hstep.
       rewrite <- E1, <- E2 in P2.
-      destruct (IH colon rgb8 _ t l pn _ w2 e2 q2 Hsim1 Hcur1 Hops P2) as (t' & toks2 & l' & Hrun & Hsim2 & Hcur2 & F1 & F2 & Hc2).
-      rewrite Hrun. exists t', (toks ++ toks2), l'. rewrite vt_run_app.
-      split; [reflexivity|]. split; [exact Hsim2|]. split; [exact Hcur2|].
+      destruct (IH colon rgb8 _ t l pn _ w2 e2 q2 Hsim1 Hcur1 Hops P2)
+        as (t' & toks2 & dtoks2 & l' & Hrun & Hu2 & Hsim2 & Hcur2 & F1 & F2 & Hc2).
+      rewrite Hrun. exists t', (toks ++ toks2), (toks ++ dtoks2), l'. rewrite vt_run_app.
+      split; [reflexivity|]. split; [intros rest; rewrite <- !app_assoc, Hu, Hu2; reflexivity|].
+      split; [exact Hsim2|]. split; [exact Hcur2|].
       split; [congruence|]. split; [congruence|].
-      apply (cells_rel_app colon _ w2 v (vt_run toks v) _ E1 E2); [|exact Hc2].
+      apply (cells_rel_app colon rgb8 _ w2 v (vt_run toks v) _ E1 E2); [|exact Hc2].
       intros y x Hy Hx. rewrite written_rw, repeat_length, Hg. rewrite Z2Nat.id by lia.
       destruct ((y =? lc) && (c <=? x) && (x <? c + n)) eqn:Ein; [|reflexivity].
       rewrite TS.look_rw. unfold Tickit.RBAbsLemmas.zlen. rewrite repeat_length, Z2Nat.id by lia. rewrite Ein.
       rewrite (nth_repeat_lt _ (FD.mkT [32] pn)) by lia.
-      exists 32. cbn [FD.t_text FD.t_pen]. split; [reflexivity|]. split; [reflexivity|]. right. split; [reflexivity|].
-      destruct Hsim as (_ & _ & _ & _ & _ & Hsgr). unfold blank, blank_cell, erased. cbn [c_attrs].
-      rewrite Hsgr. unfold visbg, rend. cbn [a_reverse a_bg]. reflexivity.
+      destruct Hsim as (_ & _ & _ & _ & Hsgr).
+      exists 32. cbn [FD.t_text FD.t_pen]. split; [reflexivity|].
+      destruct (a_reverse (v_sgr v)) eqn:Erv.
+      * split; [reflexivity|]. left. exact Hsgr.
+      * split; [reflexivity|]. right. split; [reflexivity|].
+        unfold blank, blank_cell, erased. cbn [c_attrs]. rewrite <- Hsgr.
+        unfold visbg. cbn [a_reverse a_bg]. rewrite Erv. reflexivity.
 Qed.
 
 (* ---- the composition with C04, for every buffer a drawing program reaches *)
@@ -516,11 +670,11 @@ Theorem flush_on_vt : forall L C prog s r colon rgb8 v0 t0 l0 pn0 T0,
     (Forall (fun o => termop_okb o = true) ops ->
      exists t1 toks l1 pn1,
        api_run t0 (map api_of_termop ops) = Some (t1, toks) /\
-       SimInv colon rgb8 (vt_run toks v0) t1 l1 pn1 /\
+       SimInv colon rgb8 (vt_run_utf8 toks v0) t1 l1 pn1 /\
        forall y x, 0 <= y < v_lines v0 -> 0 <= x < v_cols v0 ->
          if written w (y, x)
-         then wrel colon (v_grid (vt_run toks v0) y x) (TS.tcellat T1 y x)
-         else v_grid (vt_run toks v0) y x = v_grid v0 y x /\ TS.tcellat T1 y x = TS.tcellat T0 y x).
+         then wrel colon rgb8 (v_grid (vt_run_utf8 toks v0) y x) (TS.tcellat T1 y x)
+         else v_grid (vt_run_utf8 toks v0) y x = v_grid v0 y x /\ TS.tcellat T1 y x = TS.tcellat T0 y x).
 Proof.
   intros L C prog s r colon rgb8 v0 t0 l0 pn0 T0 HL HC Ho E Hsim (HT & TL & TC & Tp) HLv HCv.
   destruct (Tickit.FlushPaint.flush_paint_reachable L C prog s r T0 HL HC Ho E HT ltac:(lia) ltac:(lia))
@@ -528,8 +682,10 @@ Proof.
   exists ops, T1, w. split; [exact Ef|]. split; [exact Et|]. split; [exact Gm|].
   intros Hops. rewrite TL, TC, Tp in P.
   destruct (paint_on_vt ops colon rgb8 v0 t0 l0 pn0 None w cur' pn' Hsim I Hops P)
-    as (t1 & toks & l1 & Hrun & Hsim1 & _ & _ & _ & Hcells).
-  exists t1, toks, l1, pn'. split; [exact Hrun|]. split; [exact Hsim1|].
+    as (t1 & toks & dtoks & l1 & Hrun & Hu & Hsim1 & _ & _ & _ & Hcells).
+  assert (Hd : utf8_toks toks = dtoks).
+  { specialize (Hu []). rewrite !app_nil_r in Hu. exact Hu. }
+  exists t1, toks, l1, pn'. unfold vt_run_utf8. rewrite Hd. split; [exact Hrun|]. split; [exact Hsim1|].
   intros y x Hy Hx. specialize (Hcells y x Hy Hx). rewrite (Gl y x) by (rewrite ?TL, ?TC; assumption).
   destruct (written w (y, x)) eqn:W.
   - rewrite (look_written_indep w (y, x) _ FS.dtc W). exact Hcells.
@@ -545,7 +701,18 @@ Proof.
   unfold SimInv. cbn [t_drv t_pen]. split; [exact Hok|]. split; [reflexivity|]. split; [reflexivity|].
   split.
   - unfold PenInv. split; [intros a x E; discriminate E|]. split; [intros a; reflexivity|exact Hm].
-  - split; [reflexivity|].
-    destruct Hm as (Hm1 & Hf). apply attrs_ext; [|rewrite Hf; reflexivity].
-    intros a. rewrite Hm1. cbn. destruct a; try reflexivity. cbn. unfold rund. destruct (cap_colon (x_caps d)); reflexivity.
+  - destruct Hm as (Hm1 & Hf). apply attrs_ext; [|rewrite Hf; reflexivity].
+    intros a. rewrite Hm1. unfold rend. rewrite enc_attr by (apply (rval_in_range RD.pen_empty a); reflexivity).
+    cbn [empty_pen]. destruct a; cbn; try reflexivity. destruct (cap_colon (x_caps d)); reflexivity.
 Qed.
+
+(* non-vacuity of the pen class: a reverse-video pen with an RGB foreground and a curly underline is covered;
+   its rendition depends on the two capabilities as C10 says *)
+Definition rv_rgb_pen : RD.pen :=
+  RD.mkPen (Some (Tickit.PenSpec.VCol 3 (Some (Tickit.PenDefs.mkRgb 10 20 30)))) None None
+           (Some (Tickit.PenSpec.VInt 3)) None (Some (Tickit.PenSpec.VBool true)) None None None None.
+Lemma rv_pen_example :
+  rbpen_okb rv_rgb_pen = true /\ a_reverse (rend true true rv_rgb_pen) = true /\
+  a_fg (rend true true rv_rgb_pen) = CRgb 10 20 30 /\ a_fg (rend true false rv_rgb_pen) = CIdx 3 /\
+  a_under (rend true true rv_rgb_pen) = 3 /\ a_under (rend false true rv_rgb_pen) = 1.
+Proof. vm_compute. repeat split; reflexivity. Qed.
